@@ -55,23 +55,34 @@ var decFaultKinds = []string{"net.bitflip", "net.bytesub", "net.multi", "net.tru
 var decMsgKinds = []string{"cose", "cose", "cbor", "cbor", "json", "json", "swcbor", "swjson", "shapecbor", "shapejson"}
 
 // prelude sweeps: (message kind, profile family, sweep kind)
-type decPrelude struct{ kind, prof, sweep string }
+type decPrelude struct {
+	kind, prof, sweep string
+	shape             int // struct shape for shape messages (-1: derived from the run index)
+}
 
 var decPreludes = func() []decPrelude {
 	var out []decPrelude
 	for _, k := range []string{"cose", "cbor", "json", "shapecbor", "shapejson", "swcbor"} {
 		for _, p := range []string{"p1", "p2", "xp2"} {
-			out = append(out, decPrelude{k, p, "truncsweep"})
+			out = append(out, decPrelude{k, p, "truncsweep", -1})
 			if p == "p1" && (k == "json" || k == "shapejson" || k == "cbor" || k == "shapecbor") {
-				out = append(out, decPrelude{k, "xp2", "floodsweep"})
+				out = append(out, decPrelude{k, "xp2", "floodsweep", -1})
 			}
 			if p == "p1" && (k == "json" || k == "cbor") {
-				out = append(out, decPrelude{k, "p1", "listflood"}, decPrelude{k, "p2", "listflood"})
+				out = append(out, decPrelude{k, "p1", "listflood", -1}, decPrelude{k, "p2", "listflood", -1})
 			}
 			if k != "json" && k != "shapejson" {
-				out = append(out, decPrelude{k, p, "headsweep"})
+				out = append(out, decPrelude{k, p, "headsweep", -1})
 			}
 		}
+	}
+	// every member of a JSON message replaced by each of a handful of literals
+	for _, p := range []string{"p1", "p2", "xp2", "xw"} {
+		out = append(out, decPrelude{"json", p, "literalsweep", -1})
+	}
+	out = append(out, decPrelude{"swjson", "p2", "literalsweep", -1})
+	for sh := 0; sh < nShapes; sh++ {
+		out = append(out, decPrelude{"shapejson", "p2", "literalsweep", sh})
 	}
 	return out
 }()
@@ -83,6 +94,9 @@ func (decWorld) Gen(prop, tier string, idx int, r *Rng) *Trace {
 		cfg.Claims = []ClaimsDesc{genValidClaims(r, p.prof)}
 		cfg.Signers = []SignerSpec{{Alg: "ES256", Key: keysForAlg("ES256")[0]}}
 		cfg.Msgs = []DecMsg{{Kind: p.kind, Claims: 0, Shape: idx}}
+		if p.shape >= 0 {
+			cfg.Msgs[0].Shape = p.shape
+		}
 		stride := 1
 		if tier == "quick" {
 			stride = 5
@@ -822,8 +836,10 @@ func (decWorld) Exec(prop string, t *Trace) *Result {
 			slots[fmt.Sprintf("m%d", i)] = s
 		}
 	}
-	st := &decState{reusedEv: &psatoken.Evidence{}, reusedP1: &psatoken.P1Claims{CanonicalProfile: psatoken.Profile1Name},
-		reusedP2: &psatoken.P2Claims{CanonicalProfile: psatoken.Profile2Name}, reusedCont: &psatoken.SwComponents[*psatoken.SwComponent]{}}
+	st := &decState{reusedEv: &psatoken.Evidence{},
+		reusedP1:   &psatoken.P1Claims{CanonicalProfile: psatoken.Profile1Name, SwComponents: &psatoken.SwComponents[*psatoken.SwComponent]{}},
+		reusedP2:   &psatoken.P2Claims{CanonicalProfile: psatoken.Profile2Name, SwComponents: &psatoken.SwComponents[*psatoken.SwComponent]{}},
+		reusedCont: &psatoken.SwComponents[*psatoken.SwComponent]{}}
 	bud := &decBudget{on: prop == "C06"}
 	nontrivial := 0
 	shape := ""
@@ -893,6 +909,40 @@ func (decWorld) Exec(prop string, t *Trace) *Result {
 			res.Faults["net.truncate"] += len(s.cur)
 			res.Probes["truncsweep_offsets"] += len(s.cur)
 			shape += "truncsweep" + s.kind
+		case "literalsweep":
+			s := slots[op.T]
+			if s == nil || !isJSONKind(s.kind) {
+				break
+			}
+			if journal {
+				fmt.Fprintf(os.Stderr, "AT %d\n", i)
+			}
+			root, ok := parseJSONTree(s.cur)
+			if !ok {
+				break
+			}
+			var nodes []*jnode
+			root.all(&nodes)
+			n := 0
+			for ni := 1; ni < len(nodes); ni++ {
+				saved := *nodes[ni]
+				for _, lit := range []string{"null", "[]", "{}", `""`, "0", "true", "[null]", "1e-400"} {
+					*nodes[ni] = jnode{kind: 'v', raw: lit}
+					var sb bytes.Buffer
+					root.write(&sb)
+					n++
+					if journal && n%256 == 255 {
+						fmt.Fprintf(os.Stderr, "AT %d\n", i)
+					}
+					if receive(res, prop, i, sb.Bytes(), st, bud) {
+						nontrivial++
+					}
+				}
+				*nodes[ni] = saved
+			}
+			res.Faults["json.member"] += n
+			res.Probes["literalsweep_substitutions"] += n
+			shape += "literalsweep" + s.kind
 		case "floodsweep":
 			// hundreds of small, legal documents of one kind, every one with a few dozen members no
 			// struct consumes and whose names never repeat: what a call allocates must not depend on
